@@ -16,6 +16,7 @@ import (
 	"github.com/sdcio/data-server/pkg/tree/importer"
 	"github.com/sdcio/data-server/pkg/types"
 	"github.com/sdcio/data-server/pkg/utils"
+	"github.com/sdcio/data-server/pkg/verifhook"
 	sdcpb "github.com/sdcio/sdc-protos/sdcpb"
 	"google.golang.org/protobuf/proto"
 	"google.golang.org/protobuf/types/known/emptypb"
@@ -75,6 +76,9 @@ func newChildMap() *childMap {
 func (c *childMap) Add(e Entry) {
 	c.mu.Lock()
 	defer c.mu.Unlock()
+	if old, exists := c.c[e.PathName()]; exists && old != e {
+		verifhook.Yield("tree.child.overwrite", e.PathName())
+	}
 	c.c[e.PathName()] = e
 }
 
@@ -1495,6 +1499,7 @@ func (s *sharedEntryAttributes) AddCacheUpdateRecursive(ctx context.Context, c *
 	var exists bool
 	// if child does not exist, create Entry
 	if e, exists = s.childs.GetEntry(c.GetPath()[idx]); !exists {
+		verifhook.Yield("tree.child.miss", strings.Join(c.GetPath()[:idx+1], "/"))
 		e, err = newEntry(ctx, s, c.GetPath()[idx], s.treeContext)
 		if err != nil {
 			return nil, err
